@@ -26,6 +26,8 @@ func (c *Cond) CELExpr() string {
 		return "b"
 	case "in_list":
 		return "v in allowed"
+	case "uint_lt":
+		return "n < m"
 	}
 	panic("unknown family " + c.Family)
 }
@@ -41,6 +43,8 @@ func FamilyParams(f string) map[string]string {
 		return map[string]string{"b": "bool"}
 	case "in_list":
 		return map[string]string{"v": "string", "allowed": "list<string>"}
+	case "uint_lt":
+		return map[string]string{"n": "uint", "m": "uint"}
 	}
 	panic("unknown family " + f)
 }
@@ -69,6 +73,13 @@ func convert(typ string, v any) (any, bool) {
 			return int64(f), true
 		}
 		return nil, false
+	case "uint":
+		// like int, and the number must not be negative
+		x, ok := convert("int", v)
+		if !ok || x.(int64) < 0 {
+			return nil, false
+		}
+		return uint64(x.(int64)), true
 	case "string":
 		s, ok := v.(string)
 		return s, ok
@@ -133,6 +144,8 @@ func (m *Model) EvalCond(t Tuple, reqCtx map[string]any) CondOutcome {
 		res = vals["s"].(string) == vals["t"].(string)
 	case "bool_is":
 		res = vals["b"].(bool)
+	case "uint_lt":
+		res = vals["n"].(uint64) < vals["m"].(uint64)
 	case "in_list":
 		res = false
 		for _, e := range vals["allowed"].([]string) {
